@@ -292,7 +292,30 @@ def r4_r5(tree, rep):
     rep.check("C13.R5", "Manager.subchannel_closed lets both Inbound and Outbound forget the subchannel", ok, site(scl, MGR), key="C13.R5:Manager.subchannel_closed")
 
 
+def _import_rule(rep, fn, args, src, dst, keep, why):
+    """re-use rule instances of a neighbouring property (same lemma, stated for this property's clause)"""
+    sub = type(rep)(rep.pid, rep.tier, rep.seed)
+    try:
+        fn(*(args + (sub,)))
+    except AnalysisError:
+        if not sub.violations:
+            raise
+    for o in sub.obligations:
+        if o["rule"] == src and keep(o.get("key") or o["instance"]):
+            rep.obligations.append(dict(o, rule=dst))
+            rep.evaluations += 1
+    for v in sub.violations:
+        if v["rule"] == src and keep(v["key"]):
+            rep.violation(dst, v["key"].replace(src, dst), v["what"] + why, v.get("site"), v.get("detail"), _count=False)
+
+
 def run(tree, rep, tier):
+    # "a subchannel opened by one side appears exactly once on the other side" needs every OPEN that reaches Manager.got_record to be
+    # dispatched (and acknowledged) whatever the Manager's connection bookkeeping says at that moment: records parked during `selecting`
+    # are replayed by select() BEFORE connector_connection_made - the rule instances are those of C10.R4
+    from .C10 import r4_r5 as c10_r4_r5
+    _import_rule(rep, c10_r4_r5, (tree,), "C10.R4", "C13.R8", lambda k: True,
+                 " (an OPEN that arrives in the same segment as the KCM is dropped: the subchannel never appears on this side)")
     # R6: "data written before a local close is delivered before the peer sees connectionLost" rests on L4: every record (DATA, CLOSE)
     # is in the retransmission queue before anything can go wrong with sending it - the rule instances are C10.R2
     from .C10 import r2 as c10_r2
